@@ -427,8 +427,12 @@ class Walker:
             return
         if isinstance(t, ast.Name):
             if t.id not in self.env:
-                self.unsupported(st, f"augmented assignment to unknown local {t.id}")
-                return
+                if t.id in self.fi.params:
+                    self.env[t.id] = ('name', t.id)
+                    self.bind_ctx[t.id] = ()
+                else:
+                    self.unsupported(st, f"augmented assignment to unknown local {t.id}")
+                    return
             term = self.ex(st.value)
             if isinstance(st.op, ast.BitOr):
                 return self.accumulate(t.id, term, st)
